@@ -27,12 +27,13 @@ Proj(ev) ==
 Logged(ev) ==
   [ regs |-> ev.post.regs, arrs |-> ev.post.arrs, um |-> ev.post.um,
     used |-> { ev.post.used[i] : i \in DOMAIN ev.post.used }, pc |-> ev.post.pc, status |-> ev.post.status,
-    createQ |-> ev.post.createQ, recvQ |-> ev.post.recvQ, pending |-> ev.post.pending, herr |-> ev.post.herr ]
+    createQ |-> ev.post.createQ, recvQ |-> ev.post.recvQ, pending |-> ev.post.pending, herr |-> ev.post.herr,
+    opaque |-> ev.post.opaque ]      \* the rig could not see the private request queues: they are not compared
 Diff(a, b) ==
   IF a.herr # b.herr THEN "handler-error"
   ELSE IF a.pending # b.pending THEN "pending-responses"
-  ELSE IF a.createQ # b.createQ THEN "create-queue"
-  ELSE IF a.recvQ # b.recvQ THEN "recv-queue"
+  ELSE IF ~b.opaque /\ a.createQ # b.createQ THEN "create-queue"
+  ELSE IF ~b.opaque /\ a.recvQ # b.recvQ THEN "recv-queue"
   ELSE IF a.arrs # b.arrs THEN "arrays"
   ELSE IF a.um # b.um THEN "unit-module"
   ELSE IF a.used # b.used THEN "used-physical-qubits"
